@@ -1,7 +1,47 @@
-// C08 harness (integer half): itoa<int> / fast_atoi<int> and the Field<int> wrapper that uses them.
+// C08 harness: itoa<int> / fast_atoi<int> and the Field<int> wrapper that uses them (integer half);
+// modp_dtoa / fast_atof and the Field<double> wrapper (floating half).
 // "itoa <dec>" -> hex text ; "atoi <hex>" -> value (UBSan abort on overflow)
+// "dtoa <bits> <prec>" -> hex text of modp_dtoa(value, prec) (= Field<double>(value, prec).print), then fast_atof of that text as
+//                         "mant exp" (value = mant * 2^exp, mant odd) and x|i = FE_INEXACT clear|raised while parsing
+// "atof <hex>"         -> fast_atof(text) (= Field<double>(text).get()) as "mant exp" and x|i
+// "rt <hex> <prec>"    -> hex text t1 of Field<double>(text) printed at precision prec, hex text of Field<double>(t1) printed again,
+//                         and x|i of the first parse
+// runtime/modp_numtoa.c is compiled INTO this translation unit so that it runs under UBSan (+ float-cast-overflow); the library
+// object (built without sanitizers) is not linked.
 #include "hcommon.hpp"
+#include <cfenv>
+#include <cmath>
+#include <cstdint>
 #include <fix8/f8includes.hpp>
+extern "C" {
+#include "runtime/modp_numtoa.c"
+}
+
+// value = mant * 2^exp with mant odd; "0 0" for both zeros
+static std::string dyadic(double v)
+{
+	if (v != v) return "nan";
+	if (std::isinf(v)) return v < 0 ? "-inf" : "inf";
+	if (v == 0) return "0 0";
+	int e;
+	const double m(std::frexp(v, &e));             // v = m * 2^e, 0.5 <= |m| < 1
+	long long mi(static_cast<long long>(std::ldexp(m, 53)));  // exact: 53 significant bits
+	e -= 53;
+	while (mi % 2 == 0) { mi /= 2; ++e; }
+	std::ostringstream os; os << mi << ' ' << e;
+	return os.str();
+}
+
+// the parse happens inside this call, so the exception flags bracket exactly the arithmetic of fast_atof
+static double __attribute__((noinline)) call_atof(const char *s, bool& exact)
+{
+	std::feclearexcept(FE_ALL_EXCEPT);
+	volatile double r(FIX8::fast_atof(s));
+	exact = !std::fetestexcept(FE_INEXACT);
+	return r;
+}
+
+static bool same_bits(double a, double b) { return std::memcmp(&a, &b, sizeof(double)) == 0 || (a == 0 && b == 0 && false); }
 
 int main()
 {
@@ -32,6 +72,60 @@ int main()
 			if (fld.get() != v)
 				{ out("field-parse-differs"); continue; }
 			std::ostringstream os; os << v; out(os.str());
+		}
+		else if (w.size() == 3 && w[0] == "dtoa")
+		{
+			const uint64_t bits(std::strtoull(w[1].c_str(), nullptr, 16));
+			double v; std::memcpy(&v, &bits, sizeof(v));
+			const int prec(std::atoi(w[2].c_str()));
+			char buf[512], buf2[512];
+			std::memset(buf, 0x5a, sizeof(buf));
+			const size_t n(modp_dtoa(v, buf, prec));
+			if (n >= sizeof(buf) || buf[n] != 0 || std::strlen(buf) != n)
+				{ out("length-differs"); continue; }
+			FIX8::Field<double, 44> fld(v, prec);
+			const size_t n2(fld.print(buf2));
+			if (n2 != n || std::memcmp(buf, buf2, n))
+				{ out("field-print-differs"); continue; }
+			bool exact;
+			const double b(call_atof(buf, exact));
+			FIX8::Field<double, 44> back(std::string(buf, n));
+			if (!same_bits(back.get(), b) && !(b != b))
+				{ out("field-parse-differs"); continue; }
+			out(hex(std::string(buf, n)) + ' ' + dyadic(b) + (exact ? " x" : " i"));
+		}
+		else if (w.size() == 2 && w[0] == "atof")
+		{
+			std::string s;
+			if (!unhex(w[1], s)) { out("bad-op"); continue; }
+			bool exact;
+			const double b(call_atof(s.c_str(), exact));
+			FIX8::Field<double, 44> fld(s);
+			if (!same_bits(fld.get(), b))
+				{ out("field-parse-differs"); continue; }
+			FIX8::Field<double, 44> fld2(s.c_str());
+			if (!same_bits(fld2.get(), b))
+				{ out("field-parse-differs"); continue; }
+			out(dyadic(b) + (exact ? " x" : " i"));
+		}
+		else if (w.size() == 3 && w[0] == "rt")
+		{
+			std::string s;
+			if (!unhex(w[1], s)) { out("bad-op"); continue; }
+			const int prec(std::atoi(w[2].c_str()));
+			bool exact;
+			const double b(call_atof(s.c_str(), exact));
+			FIX8::Field<double, 44> fld(s);
+			if (!same_bits(fld.get(), b))
+				{ out("field-parse-differs"); continue; }
+			fld.set_precision(prec);
+			char buf[512], buf2[512];
+			const size_t n(fld.print(buf));
+			// once more from the printed text
+			FIX8::Field<double, 44> again(std::string(buf, n));
+			again.set_precision(prec);
+			const size_t n2(again.print(buf2));
+			out(hex(std::string(buf, n)) + ' ' + hex(std::string(buf2, n2)) + (exact ? " x" : " i"));
 		}
 		else out("bad-op");
 	}
